@@ -68,6 +68,9 @@ Target(tmode) ==
       [] tmode = "tree22"    -> TreeRecs(2, 2)
       [] tmode = "tree23"    -> TreeRecs(2, 3)
       [] tmode = "tree34"    -> TreeRecs(3, 4)
+      \* an alias chain longer than any limit: w -> k1 -> k2 -> ... -> k30 (an address at the end)
+      [] tmode = "chain"     -> {CN(IF i = 0 THEN H("w", L1) ELSE H("k" \o ToString(i), L1), H("k" \o ToString(i + 1), L1)) : i \in 0..29}
+                                \cup {A(H("k30", L1), "h1")}
       [] tmode = "ent"       -> {A(H("x", H("w", L1)), "h2")}       \* w.l.t1 is an empty non-terminal: NODATA
       [] OTHER               -> {}
 
@@ -122,13 +125,14 @@ Typed(conc, r) == IF r.t = "A" /\ conc[r.d[1]].v = 6 THEN [r EXCEPT !.t = "AAAA"
 SoaModes == {"own", "parent", "sibling", "root"}
 SoaOwner(so) == CASE so = "parent" -> T1 [] so = "sibling" -> M1 [] so = "root" -> Root [] OTHER -> L1
 
-Net(lmode, mmode, tmode, inj, denyS, denyA, cv, so, qtp) ==
+Net(lmode, mmode, tmode, inj, denyS, denyA, cv, so, qtp, lims) ==
     LET conc == Conc(cv) IN
     [zones |-> {[z EXCEPT !.recs = {Typed(conc, r) : r \in z.recs}, !.soa = IF z.apex = L1 THEN SoaOwner(so) ELSE z.apex] :
                 z \in Zones(lmode, mmode, tmode)},
      roots |-> {"a1"}, inj |-> {[x EXCEPT !.r = Typed(conc, x.r)] : x \in inj},
      conc |-> conc, denyS |-> denyS, denyA |-> denyA,
      qt |-> IF qtp # "auto" THEN qtp ELSE IF conc["h1"].v = 6 THEN "AAAA" ELSE "A",
+     lim |-> lims,        \* depth limits of this internet's case ([ns |-> 0, rec |-> 0]: the generator's)
      tag |-> <<lmode, mmode, tmode, cv, so>>]
 
 \* hostile additions: all out of bailiwick for the server that sends them
@@ -167,8 +171,15 @@ TreeF(tm) == IF tm = "tree34" THEN 3 ELSE 2
 TreeD(tm) == CASE tm = "tree22" -> 2 [] tm = "tree23" -> 3 [] OTHER -> 4
 
 \* parameter records and the internet each stands for
-P(lm, mm, tm, inj, fs, fa, cv) == [lm |-> lm, mm |-> mm, tm |-> tm, inj |-> inj, fs |-> fs, fa |-> fa, cv |-> cv, so |-> "own", qt |-> "auto"]
-NetOfParams(p) == Net(p.lm, p.mm, p.tm, p.inj, p.fs, p.fa, p.cv, p.so, p.qt)
+P(lm, mm, tm, inj, fs, fa, cv) == [lm |-> lm, mm |-> mm, tm |-> tm, inj |-> inj, fs |-> fs, fa |-> fa, cv |-> cv, so |-> "own", qt |-> "auto", lim |-> [ns |-> 0, rec |-> 0]]
+NetOfParams(p) == Net(p.lm, p.mm, p.tm, p.inj, p.fs, p.fa, p.cv, p.so, p.qt, p.lim)
+\* the two depth limits configured differently (both orders), on an alias chain longer than either
+LimParams == {[P("in", "in", "chain", {}, NoFilter, NoFilter, "v4") EXCEPT !.lim = l] :
+                 l \in {[ns |-> 12, rec |-> 4], [ns |-> 4, rec |-> 12], [ns |-> 40, rec |-> 8]}}
+\* a question that does not ask for addresses (NS) whose answer carries address records -- glue, and an
+\* in-zone address the zone's own server adds -- with an answer filter that denies them
+NsqParams == {[P("in", "in", "a", {[ip |-> "a4", sec |-> "ad", when |-> "NS", qn |-> <<"*">>, r |-> A(H("x", L1), "h1")]},
+                 NoFilter, fa, "v4") EXCEPT !.qt = "NS"] : fa \in {NoFilter, One("h1"), One("a4")}}
 \* DS questions (for the zone l.t1 -- asked on the parent side, at t1's server -- and for the host w.l.t1)
 \* with hostile servers of t1 / l.t1 decorating every response
 DsParams ==
@@ -189,5 +200,5 @@ V6Params ==
 TreeParams(TM) == {P("in", "in", tm, TreeInj(TreeF(tm), TreeD(tm)), NoFilter, NoFilter, "v4") : tm \in TM}
 
 TheQuestions == {[qn |-> H("w", L1), qt |-> "A"], [qn |-> H("w", L1), qt |-> "AAAA"],
-                 [qn |-> H("w", L1), qt |-> "DS"], [qn |-> L1, qt |-> "DS"]}
+                 [qn |-> H("w", L1), qt |-> "DS"], [qn |-> L1, qt |-> "DS"], [qn |-> L1, qt |-> "NS"]}
 =============================================================================
